@@ -43,7 +43,16 @@ def generate(rng, index, tier):
         w['cpu_info'] = {'x': 'y' * rng.randrange(0, 9)}      # every size residue mod 8
     if rng.chance(0.1):
         w['blocks'] = []
-    if index % 199 == 11:
+    if index % 1201 == 29:
+        # a chunk holding as many records as a count the source names (+-1), and a block right above a byte size it names
+        nbig = worlds.dict_size(rng, 70000 if tier == 'quick' else 270000) or 5000
+        scn['bulk_records'] = nbig
+        w['chunks'] = [rng.randrange(0, 3)] if rng.chance(0.5) else []
+        bs = worlds.dict_bytesize(rng)
+        if bs and rng.chance(0.7):
+            w['blocks'] = [{'kind': 'codes', 'text': '0x1\tA\n' + 'x' * bs}] + [b for b in w['blocks'] if b['kind'] not in ('logs', 'strings')][:3]
+        scn['large'] = True
+    elif index % 199 == 11:
         # a long capture: very many event chunks, many blocks of each kind, hundreds of log records
         w['chunks'] = sorted(rng.randrange(0, nrec + 1) for _ in range(rng.pick([64, 130, 300])))
         w['gaps'] = []
@@ -122,6 +131,9 @@ def execute(scn):
         stats[k] = stats.get(k, 0) + v
     table, stream = worlds.build_stream(scn)
     rb = [kernel.to_bytes(r) for r in stream]
+    if scn.get('bulk_records'):
+        import struct
+        rb = rb[:3] + [struct.pack('<Q32sQIIQ', 1000 + i, bytes([1 + i % 255]) * 32, 1 + i % 7, 0x40c0004 | (i & 3), 0, 0) for i in range(scn['bulk_records'])] + rb[3:]
     for pos, kind in sorted(scn.get('special', []), reverse=True):
         blob = {'zero': bytes(64), 'ones': b'\xff' * 64}.get(kind) or (bytes(8) + bytes(range(1, 41)) + bytes(4) + bytes(range(50, 62)))
         if kind == 'magic' and scn.get('magic'):
